@@ -253,10 +253,12 @@ def execute(plan):
                         bump(res["probes"], "number_of_users_changed")
                     if kind == "randomize":
                         ch.set_channel_seed(op["seed"])
+                        same = len(set(op["Nr"])) == 1 and len(set(op["Nt"])) == 1 and op["seed"] % 2 == 0
+                        a_r, a_t = (int(op["Nr"][0]), int(op["Nt"][0])) if same else (Nr, Nt)      # equal antennas may be given as plain ints
                         if ext:
-                            ch.randomize(Nr, Nt, K, NtE)
+                            ch.randomize(a_r, a_t, K, NtE)
                         else:
-                            ch.randomize(Nr, Nt, K)
+                            ch.randomize(a_r, a_t, K)
                         m.raw = model_randn_c(op["seed"], int(Nr.sum()), int(Nt.sum() + NtE.sum()))
                     else:
                         M = arr(op["M"])
